@@ -1,7 +1,7 @@
 """C17 — relations and conversions between groups (harness/conv.cpp, Driver/OpsConv.lean).
 
 T1: every conversion and every paired op (SE_K_3<1> vs SE3, SE_K_3<2> vs Galilei at tau = 0) is
-compared with the executable Lean model (SmoothModel/Convert.lean) at 0..4 ulp.  Ops that go through
+compared with the executable Lean model (SmoothModel/Convert.lean) at 0 ulp (scalar coefficient functions) / 16 ulp (algebraic ops; measured <= 4).  Ops that go through
 Eigen's `eulerAngles` / `Quaternion(Matrix3)` are not modelled: their smooth-side glue is compared
 (derived lines `conv_se3_iso_glue`, `conv_of_euler`) and their contract is audited.
 
@@ -27,7 +27,7 @@ EXACT_OPS = ('conv_angle', 'conv_angle_cw', 'conv_angle_ccw', 'conv_u1', 'conv_u
              'conv_c1_scaling', 'conv_c1_angle', 'conv_c1_so2', 'conv_c1_sa_ctor', 'conv_rot_x', 'conv_rot_y', 'conv_rot_z',
              'conv_se2_iso_ctor',
              'conv_p1_identity', 'conv_p1_hat', 'conv_p1_ad', 'conv_p2_identity', 'conv_p2_hat', 'conv_p2_ad')
-T1_ULP = 4.0
+T1_ULP = 16.0      # DESIGN §1.3: algebraic ops (Eigen's kernels may associate sums differently); measured <= 4
 
 PAIR_OPS = ('identity', 'matrix', 'compose', 'inverse', 'log', 'Ad', 'exp', 'hat', 'ad', 'dr_exp', 'dr_expinv')
 
@@ -400,7 +400,7 @@ class C17:
 
     # ------------------------------------------------------------------ entry points
     def explore(self, ctx):
-        n = 4 if ctx['tier'] == 'quick' else 60
+        n = 4 if ctx['tier'] == 'quick' else 150
         return self.check_lines(ctx, self.gen_lines(ctx, n * ctx.get('budget', 1)))
 
     def search(self, ctx, broken):
